@@ -1313,6 +1313,11 @@ func (an *lmAn) gate(cd *lmCand) {
 					if !ok {
 						return false
 					}
+					if cd.clause == 4 && lmZeroHeightEdge(cd.iff, iff, from, to) {
+						// `if m.height > 0 && layer < m.height`: on the edge that skips the test the height is 0, and no
+						// unsigned layer is below 0 — the guard is implied by the test, the bypass rejects nothing less
+						return true
+					}
 					A, B, op, ok := an.rel(iff.Cond, f)
 					if !ok {
 						return false
@@ -4935,4 +4940,89 @@ func lmWholeSizeBound(bin *ssa.BinOp, op token.Token) (up, ok bool) {
 		return false, false
 	}
 	return op == token.GTR || op == token.GEQ, true
+}
+
+// lmZeroHeightEdge: guard is a test of H against zero, H being the greater side of the unsigned comparison `layer < H`
+// that pivot branches on (same symbolic path, not stored to in the function), and from→to is the edge on which H == 0.
+func lmZeroHeightEdge(pivot, guard *ssa.If, from, to *ssa.BasicBlock) bool {
+	pb, ok := pivot.Cond.(*ssa.BinOp)
+	if !ok {
+		return false
+	}
+	var H ssa.Value
+	switch pb.Op {
+	case token.LSS:
+		H = pb.Y
+	case token.GTR:
+		H = pb.X
+	default:
+		return false
+	}
+	bt, ok := H.Type().Underlying().(*types.Basic)
+	if !ok || bt.Info()&types.IsUnsigned == 0 {
+		return false
+	}
+	gb, ok := guard.Cond.(*ssa.BinOp)
+	if !ok {
+		return false
+	}
+	same := func(v ssa.Value) bool {
+		if v == H {
+			return true
+		}
+		a, b := ir.Sym(v), ir.Sym(H)
+		if a != b || a == "" || strings.Contains(a, "?") {
+			return false
+		}
+		// two loads of the same field: equal as long as the function does not store to it
+		for _, blk := range from.Parent().Blocks {
+			for _, ins := range blk.Instrs {
+				if st, isSt := ins.(*ssa.Store); isSt && ir.Sym(st.Addr) != "" && strings.TrimPrefix(a, "*") == ir.Sym(st.Addr) {
+					return false
+				}
+			}
+		}
+		_, isLoad := v.(*ssa.UnOp)
+		return isLoad
+	}
+	constIs := func(v ssa.Value, n int64) bool {
+		c, ok := v.(*ssa.Const)
+		if !ok || c.Value == nil {
+			return false
+		}
+		i, exact := constant.Int64Val(constant.ToInt(c.Value))
+		return exact && i == n
+	}
+	// zeroOnTrue: the condition is true exactly when H == 0
+	var zeroOnTrue, recognised bool
+	switch {
+	case same(gb.X) && constIs(gb.Y, 0):
+		switch gb.Op {
+		case token.GTR, token.NEQ:
+			zeroOnTrue, recognised = false, true
+		case token.EQL, token.LEQ:
+			zeroOnTrue, recognised = true, true
+		}
+	case same(gb.Y) && constIs(gb.X, 0):
+		switch gb.Op {
+		case token.LSS, token.NEQ:
+			zeroOnTrue, recognised = false, true
+		case token.EQL, token.GEQ:
+			zeroOnTrue, recognised = true, true
+		}
+	case same(gb.X) && constIs(gb.Y, 1):
+		switch gb.Op {
+		case token.GEQ:
+			zeroOnTrue, recognised = false, true
+		case token.LSS:
+			zeroOnTrue, recognised = true, true
+		}
+	}
+	if !recognised {
+		return false
+	}
+	if zeroOnTrue {
+		return to == from.Succs[0]
+	}
+	return to == from.Succs[1]
 }
